@@ -36,12 +36,13 @@ Inductive op :=
 | Cancel (a : nat)                 (* dispose() of the disposable returned for action a *)
 | Dispose.                         (* scheduler.dispose() *)
 
-Record item := Item { it_uid : nat; it_lbl : nat; it_due : Z }.
+(* it_uid and it_imm are ghost: the call that made the item, and whether it went to _ready_list *)
+Record item := Item { it_uid : nat; it_lbl : nat; it_due : Z; it_imm : bool }.
 
 Inductive ev :=
 | ECall (u a : nat)                (* ghost: first step of a schedule call; u fresh *)
 | EPass (u : nat)                  (* ghost: the unlocked `_is_disposed` test was passed *)
-| EAcc (it : item) (imm : bool)    (* ghost: enqueued; imm = into _ready_list *)
+| EAcc (it : item)                 (* ghost: enqueued (it_imm: into _ready_list) *)
 | ERet (a : nat)                   (* the schedule call returned a disposable *)
 | ERaise (a : nat)                 (* the schedule call raised DisposedException *)
 | ECancelRet (a : nat)             (* dispose() of the item's disposable returned *)
@@ -145,17 +146,17 @@ Definition s1 (s : shared) (u a : nat) (due : Z) (todo : list op)
 
 Definition s2 (ntid : nat) (s : shared) (u a : nat) (due : Z) (todo : list op)
   : shared * option opst * list op * list ev * bool :=
-  let it := Item u a due in
   let imm := due <=? clock s in
+  let it := Item u a due imm in
   let rl' := if imm then rl s ++ [it] else rl s in
   let q' := if imm then q s else insert it (q s) in
   match thr s with
   | Some _ =>
       (Sh (clock s) (disposed s) rl' q' (thr s) (notify (wt s)) (cancelled s) (nuid s),
-       None, todo, [EAcc it imm; ERet a], false)
+       None, todo, [EAcc it; ERet a], false)
   | None =>
       (Sh (clock s) (disposed s) rl' q' (Some ntid) (notify (wt s)) (cancelled s) (nuid s),
-       None, todo, [EAcc it imm; ESpawn ntid; ERet a], true)
+       None, todo, [EAcc it; ESpawn ntid; ERet a], true)
   end.
 
 Definition bump (s : shared) : shared :=
@@ -292,7 +293,7 @@ Definition evs (l : list (nat * Z * ev)) : list ev := map snd l.
    8 spawn (label = tid), 9 exit *)
 Definition obs_of (e : ev) : option (nat * nat) :=
   match e with
-  | ECall _ _ | EPass _ | EAcc _ _ => None
+  | ECall _ _ | EPass _ | EAcc _ => None
   | ERet a => Some (0, a) | ERaise a => Some (1, a)
   | ECancelRet a => Some (2, a) | EDisposeRet => Some (3, 0)
   | ECheck i false => Some (4, it_lbl i) | ECheck i true => Some (5, it_lbl i)
